@@ -348,6 +348,10 @@ def run_lc(c, rec):
     got = float(dist.logpdf(x))
     require(close(got, ref, 1e-9), f"{c['fam']} logpdf is not the documented density of the differences of x - location",
             got=got, ref=ref)
+    if hasattr(dist, "pdf") and abs(ref) < 600:
+        refused, pv = refuses(lambda: float(np.asarray(dist.pdf(x)).reshape(-1)[0]))
+        if not refused:
+            require(abs(pv - np.exp(ref)) <= 1e-9 * np.exp(ref), f"{c['fam']}.pdf is not exp(logpdf)", pdf=pv, exp_logpdf=float(np.exp(ref)))
 
 
 # ----------------------------------------------------------------------------- non-square 2-D geometries
@@ -388,7 +392,52 @@ def run_nonsquare(c, rec):
             "(was the field treated as a square grid?)", got=val, want=ref)
 
 
+# ----------------------------------------------------------------------------- GMRF on large grids
+
+@st.composite
+def gmrf_large_cases(draw, tier="quick"):
+    kind = draw(st.sampled_from(["2d_zero", "2d_zero", "1d_periodic", "1d_neumann", "1d_zero"]))
+    if kind == "2d_zero":
+        return {"pd": 2, "n": draw(st.sampled_from([20, 27, 30, 36])), "bc": "zero", "order": draw(st.sampled_from([1, 2])),
+                "prec": float(10 ** draw(st.floats(-1, 1))), "seed": draw(st.integers(0, 10 ** 6))}
+    bc = kind.split("_")[1]
+    order = draw(st.sampled_from([1, 2])) if bc != "neumann" else 1      # (neumann, order 2 is a recorded finding)
+    return {"pd": 1, "n": draw(st.sampled_from([300, 600, 640, 700])), "bc": bc, "order": order,
+            "prec": float(10 ** draw(st.floats(-1, 1))), "seed": draw(st.integers(0, 10 ** 6))}
+
+
+def run_gmrf_large(c, rec):
+    """the normalising constant and quadratic form on grids large enough that determinants leave the double range and that
+    the smallest non-zero eigenvalues of the periodic operators become small"""
+    import cuqi
+    n, bc, order, pd = c["n"], c["bc"], c["order"], c["pd"]
+    if rec.classify({"pd": pd, "n": n, "bc": bc, "order": order}, True):
+        return
+    dim = n if pd == 1 else n * n
+    rs = np.random.RandomState(c["seed"])
+    x, mu = rs.uniform(-1, 1, dim), rs.uniform(-1, 1, dim)
+    delta = c["prec"]
+    G = must(lambda: cuqi.distribution.GMRF(mu.copy(), delta, bc_type=bc, order=order, geometry=make_geom(pd, n)), "constructing GMRF")
+    R = ref_D(n, bc, order) if pd == 1 else ref_D2(n, bc, order)
+    P = R.T @ R
+    w = np.linalg.eigvalsh(P)
+    null = ref_nullity(n, bc, order, pd)
+    wpos = np.sort(w)[null:]
+    require(wpos[0] > 1e-11 * wpos[-1], "harness: reference spectrum not separated from its null space", smallest=wpos[0])
+    rank = dim - null
+    logpdet = float(np.sum(np.log(wpos)))
+    lm = float(G.logpdf(mu.copy()))
+    ref_const = 0.5 * (rank * (np.log(delta) - np.log(2 * np.pi)) + logpdet)
+    require(np.isfinite(lm) and abs(lm - ref_const) <= 1e-6 * abs(ref_const) + 1e-6,
+            f"GMRF normalising constant on a large grid is not that of its precision (bc={bc}, order={order}, pd={pd}, n={n})", got=lm, ref=ref_const)
+    r = x - mu
+    ref_quad = -0.5 * delta * float(r @ P @ r)
+    require(abs(float(G.logpdf(x)) - lm - ref_quad) <= 1e-7 * (1 + abs(ref_quad)), "GMRF quadratic form on a large grid differs from -prec/2 (x-mean)^T D^T D (x-mean)")
+
+
 SUBCHECKS = [
+    SubCheck("C20/gmrf_large", run_gmrf_large, strategy=gmrf_large_cases, n={"quick": 24, "thorough": 200}, shards={"quick": 8, "thorough": 16}, shrink=False,
+             doc="GMRF constant and quadratic form on large grids (determinants beyond the double range, small periodic eigenvalues)"),
     SubCheck("C20/nonsquare_2d", run_nonsquare, strategy=nonsquare_cases, n={"quick": 200, "thorough": 2000}, shards={"quick": 2, "thorough": 4},
              doc="MRF priors on non-square 2-D geometries are refused or are the density on that grid"),
     SubCheck("C20/stencils", run_stencil, enum=enum_ops, exhaustive=True, shards={"quick": 4, "thorough": 16},
